@@ -18,7 +18,7 @@ CHECKS["C02"] = ("proggen",
   "DESIGN.md section 5 C02")
 CHECKS["C16"] = ("inproc+proggen",
   "differential testing of the argument splitter against syn's full expression parser on grammar-generated expression lists (proptest dice), cross-validated on a sample against rustc's own `$e:expr` matcher",
-  "Generated-input search: 60k (quick) to 1M (thorough) comma-separated expression lists from a recursive grammar over every expression form, with aliases, trailing commas and adversarial adjacency, are split by the derive's token scanner (working-tree source, in-process) and by syn's full parser; element count, token equality, single-identifier classification, the sentinel bound through a real Display expansion and verbatim spacing-sensitive re-emission are compared. A sample is compiled so that rustc's `$e:expr` matcher validates the proxy.",
+  "Generated-input search: 200k (quick) to 1.6M (thorough, 8 seeded rounds, plus a coverage-guided libFuzzer campaign over a token dictionary) comma-separated expression lists from a recursive grammar over every expression form (incl. closures with explicit return types, qualified paths over generated types), with aliases written `name = e` and glued `name=*e`, trailing commas and adversarial adjacency, are split by the derive's token scanner (working-tree source, in-process) and by syn's full parser; element count, token equality, single-identifier classification are compared; through real expansions at four re-emission sites (struct-, variant- and shared enum-level display, field-level debug) the sentinel bound, verbatim spacing-aware re-emission, the single-argument delegating expansion and the derive's own alias recognition (an alias named like the field must not yield the field's bound) are checked. A sample is compiled so that rustc's `$e:expr` matcher validates the proxy.",
   "trusts syn 2 (full) as proxy of Rust's expression grammar, validated against rustc on a sample each run; three recorded defects of the scanner are known findings with rewrite-based defect models",
   "DESIGN.md section 5 C16")
 CHECKS["C18"] = ("inproc",
